@@ -57,6 +57,9 @@ MUTANTS: Dict[str, List[M]] = {
         ("error exits with status 1", "_core.py", "        self.exit(2)", "        self.exit(1)", "C03.R3"),
         ("env list loading unguarded", "_core.py", "                    try:\n                        list_env_val = load_value(env_val)\n                        env_val = list_env_val if isinstance(list_env_val, list) else [env_val]\n                    except get_loader_exceptions():\n                        env_val = [env_val]", "                    list_env_val = load_value(env_val)\n                    env_val = list_env_val if isinstance(list_env_val, list) else [env_val]", "C03.R5"),
         ("argparse error not converted", "_core.py", "        except argparse.ArgumentError as ex:\n            self.error(str(ex), ex)\n\n        return namespace, args", "        except argparse.ArgumentError as ex:\n            raise ex\n\n        return namespace, args", "C03.R2"),
+        ("Type arm imports outside any handler", "_typehints.py", "            try:\n                val = import_object(val)\n            except (ImportError, AttributeError) as ex:\n                raise_unexpected_value(f\"Expected an import path corresponding to a {typehint}: {ex}\", path, ex)", "            val = import_object(val)", "C03.R6"),
+        ("get_content no longer converts decode errors", "_util.py", "        except UnicodeDecodeError as ex:\n            raise PathError", "        except UnicodeEncodeError as ex:\n            raise PathError", "C03.R6"),
+        ("Callable arm no longer converts AttributeError", "_typehints.py", "            except (ImportError, AttributeError, ArgumentError) as ex:\n                raise_unexpected_value(f\"Type {typehint} expects a function", "            except (ImportError, ArgumentError) as ex:\n                raise_unexpected_value(f\"Type {typehint} expects a function", "C03.R6"),
         ("yaml_load no longer converts constructor ValueError", "_loaders_dumpers.py", "    except ValueError as ex:  # raised by the constructors", "    except KeyError as ex:  # raised by the constructors", "C03.R5"),
         ("subcommand parser does not inherit exit_on_error", "_actions.py", "        parser.exit_on_error = self.parent_parser.exit_on_error\n", "", "C03.R3"),
         ("ActionTypeHint no longer converts ValueError", "_typehints.py", "            except (TypeError, ValueError) as ex:\n                if self._is_valid_string(val):", "            except TypeError as ex:\n                if self._is_valid_string(val):", "C03.R4"),
@@ -76,6 +79,8 @@ MUTANTS: Dict[str, List[M]] = {
         ("jsonschema argv path skips the checker", "_jsonschema.py", "        val = self._check_type(args[2])\n        if not self._with_meta:", "        val = args[2]\n        if not self._with_meta:", "C05.a"),
     ],
     "C06": [
+        ("unknown subcommand names rejected only when required", "_actions.py", "            if subcommand not in action._name_parser_map:", "            if action._required and subcommand not in action._name_parser_map:", "C06.d"),
+        ("known key skipped for any falsy value", "_core.py", "if (val is None and skip_none) or lenient_check.get():", "if (not val and skip_none) or lenient_check.get():", "C06.a"),
         ("meta keys skipped silently", "_core.py", "                    if _is_branch_key(self, key):\n                        continue", "                    if _is_branch_key(self, key) or is_meta_key(key):\n                        continue", "C06.a"),
         ("unknown key only logged", "_core.py", "                    raise NSKeyError(f\"Key '{key}' is not expected\")", "                    self._logger.debug(f\"Key {key} is not expected\")", "C06.a"),
         ("init_args bypass the class parser", "_typehints.py", "        init_args = parser.parse_object(init_args, cfg_base=prev_init_args, defaults=sub_defaults.get())\n        if init_args:", "        if prev_init_args is None:\n            init_args = parser.parse_object(init_args, cfg_base=prev_init_args, defaults=sub_defaults.get())\n        if init_args:", "C06.e"),
